@@ -34,6 +34,10 @@ structure Ep where
   peerRwnd : UInt32 := 262144
   /-- the teardown guard has run -/
   cleaned  : Bool := false
+  /-- every SACK `transmit()` has created, oldest first -/
+  sacks    : List Sack := []
+  /-- `transmit()` calls made from inside `handle_sack` whose trace mark is still to come -/
+  skipW    : Nat := 0
 deriving DecidableEq, Repr, Inhabited
 
 /-- `handle_data` returned `Ok` -/
@@ -51,7 +55,7 @@ def handleDataOk (proc : Proc) (s : Rx) (c : DChunk) : Bool :=
 negotiated channels are set Open and get an `Open` event; in-band ones in state Connecting get
 their DCEP OPEN (re)sent -/
 def openChannels (pl : Pl) : Pl :=
-  let chans := pl.chans.map (fun c => if c.negotiated then ({ c with state := 1 }.emit .open_) else c)
+  let chans := pl.chans.map (fun c => if c.negotiated then openOnce c else c)
   let acts := pl.acts ++ (pl.chans.filter (fun c => !c.negotiated && c.state == 0)).map (fun c => Act.dcepOpen c.id)
   { pl with chans := chans, acts := acts }
 
@@ -154,6 +158,16 @@ def handleReconfig : Nat → Ep → Bytes → Ep
         handleReconfig fuel (if ty == 13 then handleSsnReset e v else e) rest2
     | _ => e
 
+/-- the SACK part of a `transmit()` call -/
+def epTransmit (e : Ep) : Ep :=
+  let r := transmitSack e.rx
+  { e with rx := r.2, sacks := e.sacks ++ r.1.toList }
+
+/-- a `transmit()` mark in the trace: either the one `handle_sack` already accounted for, or a
+run-loop level call -/
+def onTransmitMark (e : Ep) : Ep :=
+  if e.skipW > 0 then { e with skipW := e.skipW - 1 } else epTransmit e
+
 /-- one chunk of `handle_packet`'s dispatch; `false` = the handler returned `Err` (the rest of
 the packet is skipped) -/
 def handleChunk (e : Ep) (c : RawChunk) : Ep × Bool :=
@@ -166,6 +180,9 @@ def handleChunk (e : Ep) (c : RawChunk) : Ep × Bool :=
     match parseData c.flags c.value with
     | none => (e, true)
     | some d => ({ e with rx := handleData e.rx d }, handleDataOk procPayload e.rx d)
+  else if ty == ctSack then
+    -- `handle_sack` ends with `self.transmit()` (sender side not modelled here; a pending SACK goes out)
+    if c.value.length ≥ 12 then ({ (epTransmit e) with skipW := e.skipW + 1 }, true) else (e, true)
   else if ty == ctForwardTsn then
     match c.value with
     | a :: b :: c' :: d :: rest => ({ e with rx := handleForwardTsn e.rx (rd32 a b c' d) (parsePairs rest) }, true)
@@ -191,6 +208,15 @@ def handlePacket (e : Ep) (p : Bytes) : Ep :=
 def cleanup (e : Ep) : Ep :=
   let chans := e.rx.pl.chans.map (fun c => if c.state != 3 then ({ c with state := 3 }.emit .close) else c)
   { e with state := .closed, cleaned := true, rx := { e.rx with pl := { e.rx.pl with chans := chans } } }
+
+/-- `close_data_channel(id)` called by the application: Closing → RE-CONFIG SSN reset sent →
+inbound stream state dropped → Closed, `Close` announced (unconditionally) -/
+def closeDataChannel (e : Ep) (id : UInt16) : Ep :=
+  let pl := e.rx.pl
+  let chans := match findChan pl.chans id with
+    | some dc => setChan pl.chans ({ dc with state := 3 }.emit .close)
+    | none => pl.chans
+  { e with rx := { e.rx with pl := { pl with chans := chans, streams := removeStream pl.streams id } } }
 
 /-- top of a run-loop iteration: leave (and tear down) when Closed, else flush the delayed SACK -/
 def loopTop (e : Ep) : Ep :=
